@@ -104,6 +104,7 @@ pub fn search(pid: &str, seed: u64, budget_s: u64, out: &str) {
         "C17" => c17(&mut s, &mut rng),
         "C14" => c14(&mut s, &mut rng),
         "C12" => c12(&mut s, &mut rng),
+        "C03" => c03(&mut s, &mut rng),
         "C01" => c01(&mut s, &mut rng),
         "C02" => c02(&mut s, &mut rng),
         "C04" => c04(&mut s, &mut rng),
@@ -671,5 +672,63 @@ fn c04(s: &mut Search, rng: &mut Rng) {
         let req = format!("oracle c04_symmetry {}", crate::gen::gen_state_desc(rng, dense));
         s.class("state");
         s.run("Groups.mapsOntoItself", &req, "c04_symmetry", "the crystal does not have the symmetry of its group", true);
+    }
+}
+
+/// LJ states: `lj <shape> <group> L R A 1 x y theta`, sized so that molecules are near contact
+fn gen_lj_state(rng: &mut Rng) -> (String, bool, bool) {
+    let pi = std::f64::consts::PI;
+    let (shape, like, cut) = match rng.below(6) {
+        0 | 1 => ("ljcircle".to_string(), true, false),
+        2 => (format!("ljtrimer {} {} {}", fhex(1.0), fhex(rng.range(60.0, 180.0)), fhex(rng.range(0.8, 1.5))), true, true),
+        3 => (format!("ljtrimer {} {} {}", fhex(0.637556), fhex(120.0), fhex(1.0)), false, true),
+        _ => (crate::gen::gen_trimer(rng, "ljtrimer"), false, true),
+    };
+    let g = *rng.pick(&crate::gen::GROUPS);
+    let nn: f64 = match g { "p1" => 1.0, "p2" | "p1m1" | "p1g1" => 2.0, _ => 4.0 };
+    let mono = g == "p1" || g == "p2";
+    let ratio = match rng.below(4) { 0 => rng.range(0.1, 0.4), 1 => 1.0, _ => rng.range(0.4, 1.0) };
+    let angle = if mono { match rng.below(3) { 0 => pi / 2.0, 1 => rng.range(pi / 6.0, pi / 3.0), _ => rng.range(pi / 3.0, pi / 2.0) } } else { pi / 2.0 };
+    let size = if shape == "ljcircle" { 1.2 } else { 7.0 };
+    let length = (nn * size * rng.range(0.9, 3.0) / (ratio * angle.sin())).sqrt();
+    let th = rng.range(0.0, 2.0 * pi);
+    (
+        format!("lj {} {} {} {} {} 1 {} {} {}", shape, g, fhex(length), fhex(ratio), fhex(angle), fhex(crate::gen::gen_site_coord(rng)), fhex(crate::gen::gen_site_coord(rng)), fhex(th)),
+        like,
+        cut,
+    )
+}
+
+fn c03(s: &mut Search, rng: &mut Rng) {
+    let mut n = 0u64;
+    while s.time_left() && n < 2_000_000 {
+        n += 1;
+        let (st, like, cut) = gen_lj_state(rng);
+        let req = format!("oracle c03_latticesum {}", st);
+        let reply = crate::exec::exec_line(&req);
+        // the reply's own category selects the predicate (so that a listed finding suppresses only
+        // its own kind of failure)
+        let pred = if reply.contains("FAILS unlike") && !like {
+            "c03_unlike_particles"
+        } else if reply.contains("FAILS shells") && cut {
+            "c03_beyond_shell_3"
+        } else {
+            "c03_sum"
+        };
+        s.class(if like { "like" } else { "unlike" });
+        s.run("Energy.latticeSum", &req, pred, "score is not minus the lattice energy per molecule", true);
+        if like && n % 2 == 0 {
+            let (sx, sy) = *rng.pick(&[(1, 0), (0, 1), (1, 1), (-1, 0), (0, -1)]);
+            let g = st.split(' ').find(|t| crate::gen::GROUPS.contains(t)).unwrap_or("");
+            // (1/2, 1/2) is a symmetry-equivalent origin for p1, p2, p2mm, p2gg
+            if (sx != 0 && sy != 0) && !["p1", "p2", "p2mm", "p2gg"].contains(&g) {
+                continue;
+            }
+            let req = format!("oracle c03_redescribe {} {} {}", sx, sy, st);
+            let reply = crate::exec::exec_line(&req);
+            let pred = if reply.contains("FAILS shells") && cut { "c03_beyond_shell_3" } else { "c03_redescription" };
+            s.class("redescription");
+            s.run("Energy.redescription", &req, pred, "two descriptions of one crystal score differently", true);
+        }
     }
 }
